@@ -37,6 +37,7 @@ ISA_TEXT = json.dumps(ISA)
 TRICKY = ["'", ';', ',', '\\', '"', 'a', ' ', '#']
 COMMENT_ALPHABET = ["'", '"', ';', '\\', ',', 'a', ' ']
 BATCH = 24
+STRING_BOUNDS = {'quick': (3, 1), 'thorough': (4, 2)}      # (elements per string, comment length)
 
 
 def lit(c: str) -> str:
@@ -121,11 +122,11 @@ def joins():
 
 
 def strings(tier):
-    """Quoted strings of 1..3 elements (a letter, semicolon, comma, blank, the other quote, an escaped backslash, an escaped
+    """Quoted strings of 1..3 (quick) or 1..4 (thorough) elements (a letter, semicolon, comma, blank, the other quote, an escaped backslash, an escaped
     quote, a newline escape) in both quote styles under .cstr / .asciiz / .byte, alone and followed by every comment of
     length <= L: the bytes are the characters (and the terminator 0).  Left out: single-quoted texts of one element (a
     character literal) and single-quoted texts that begin with an escaped quote (two readings, see ambiguous())."""
-    nmax, L = (3, 2) if tier == 'thorough' else (2, 1)
+    nmax, L = STRING_BOUNDS[tier if tier in STRING_BOUNDS else 'quick']
     coms = [''.join(t) for n in range(L + 1) for t in itertools.product(COMMENT_ALPHABET, repeat=n)]
     out = []
     for q in ('"', "'"):
